@@ -119,7 +119,7 @@ func c13ObjectProgram(s Src) (string, *C13Expect) {
 	n := s.Int("nstmts", 2, 8)
 	terminal := false
 	for i := 0; i < n && !terminal; i++ {
-		switch s.Int("stmt", 0, 10) {
+		switch s.Int("stmt", 0, 11) {
 		case 0, 1: // literal whose initialisers print tags
 			keys := drawKeys(s.Int("nk", 2, 6))
 			var parts []string
@@ -171,6 +171,14 @@ func c13ObjectProgram(s Src) (string, *C13Expect) {
 			k := drawKeys(4)
 			ls = append(ls, fmt.Sprintf("%s ({%s: 1, %s: 2, %s: 3, %s: 4}).nothere;", KwPrint, k[0], k[1], k[2], k[3]))
 			terminal = true
+		case 11: // a literal that names a property twice: every initialiser still runs, in source order
+			keys := drawKeys(3)
+			ntag += 4
+			ex.Tags = append(ex.Tags, fmt.Sprintf("T:%d", ntag-3), fmt.Sprintf("T:%d", ntag-2), fmt.Sprintf("T:%d", ntag-1), fmt.Sprintf("T:%d", ntag))
+			nobj++
+			setKeys(nobj, keys...)
+			ls = append(ls, fmt.Sprintf("%s ob%d = {%s: tag(%d, 1), %s: tag(%d, 2), %s: tag(%d, 3), %s: tag(%d, 4)};", KwVar, nobj, keys[0], ntag-3, keys[1], ntag-2, keys[0], ntag-1, keys[2], ntag),
+				fmt.Sprintf("%s ob%d.%s;", KwPrint, nobj, keys[0]))
 		case 10: // a built-in applied to an object with awkward values (0, -0, NaN): result or error, but the same every time
 			k := drawKeys(4)
 			fn := Pick(s, "bfn", []string{FnMin, FnMax, FnLen, FnAbs, FnRound, FnKeys, FnValues, FnSqrt})
